@@ -226,8 +226,21 @@ fn check_position(
                         ));
                     }
                 }
-                // Cursor on the qualifier part of `q.name`, on a parameter, a rec binder or an
-                // import qualifier: the property does not say.
+                // Cursor on a parameter or a rec binder: whether the server answers is not
+                // fixed, but "every reference returned goes back to that declaration": whatever
+                // it returns must be uses bound to this very binder.
+                OccKind::Param | OccKind::RecBinder => {
+                    let want = expected_refs(i);
+                    let got = got_refs()?;
+                    if !got.is_subset(&want) {
+                        return Err((
+                            format!("references | a reference that is not bound to the binder under the cursor | on a {:?}", o.kind),
+                            format!("at {here} (`{}`): got {got:?}, uses bound to it {want:?}", o.text),
+                        ));
+                    }
+                }
+                // Cursor on the qualifier part of `q.name` or on an import qualifier: the
+                // property does not say.
                 _ => {}
             }
         }
@@ -305,11 +318,11 @@ impl Engine for C17 {
         }
     }
     fn rule(&self) -> String {
-        "accepted programs (binding relation fully specified) of the module and scoping fragments and of the C08 name-collision space (imports unqualified / `as m` / `as a`, declarations, parameters and rec binders over colliding names); each in two layouts (as printed; every file prefixed with a multi-byte block comment and CRLF line ends); one real oal-lsp per layout; definition and references requested at EVERY UTF-16 position of every file. Oracle: on a use bound to a binder the definition lies in the binder's file, contains the binder identifier and lies within the binding construct; at non-identifier positions both answers are empty; references on a declaration name or on any use == exactly the uses bound to that binder across all modules (hence every reference goes back to its declaration). Non-trivial = program with >= 1 identifier use; distinct = distinct programs".into()
+        "accepted programs (binding relation fully specified) of the module and scoping fragments and of the C08 name-collision space (imports unqualified / `as m` / `as a`, declarations, parameters and rec binders over colliding names); each in two layouts (as printed; every file prefixed with a multi-byte block comment and CRLF line ends); one real oal-lsp per layout; definition and references requested at EVERY UTF-16 position of every file. Oracle: on a use bound to a binder the definition lies in the binder's file, contains the binder identifier and lies within the binding construct; at non-identifier positions both answers are empty; references on a declaration name or on any use == exactly the uses bound to that binder across all modules (hence every reference goes back to its declaration); references on a parameter or rec binder is a subset of the uses bound to it. Non-trivial = program with >= 1 identifier use; distinct = distinct programs".into()
     }
     fn assumptions(&self) -> Vec<String> {
         vec![
-            "cursor exactly at the end of an identifier, on the qualifier part of `q.name`, on a parameter / rec binder / import qualifier itself: the property does not fix the answer; not checked".into(),
+            "cursor exactly at the end of an identifier, on the qualifier part of `q.name` or on an import qualifier: the property does not fix the answer; not checked. On a parameter or rec binder itself an empty answer is accepted, but every reference returned must be a use bound to that binder".into(),
             "programs that the compiler rejects or whose binding relation has an unspecified collision are skipped".into(),
         ]
     }
